@@ -95,7 +95,7 @@ func (f *gitFileRec) tagString() string {
 	return "never-renamed"
 }
 
-var gitShapePriority = []string{"brace-empty-new", "brace-empty-old", "full-path", "brace", "recreated"}
+var gitShapePriority = []string{"created-twice", "brace-empty-new", "brace-empty-old", "full-path", "brace", "recreated"}
 
 func gitShapeRank(s string) int {
 	for i, t := range gitShapePriority {
@@ -132,8 +132,8 @@ type GitExpect struct {
 }
 
 // GitFold computes the expectation. A list is "malformed" (and then decides nothing about team summary / code age) if
-// inside one commit a path occurs twice, a rename source does not exist or its target does, a created path exists,
-// or a modified/deleted path does not: such lists are outside what git prints for a history that starts at its root.
+// inside one commit a path occurs twice, a rename source does not exist or its target does, or a modified path does
+// not exist (a second create of an existing path and a second delete of a deleted one are what merged branches print): such lists are outside what git prints for a history that starts at its root.
 func GitFold(commits []GitCommit) *GitExpect {
 	e := &GitExpect{Live: map[string]*gitFileRec{}, Top: map[string][2]int{}, ChangeMap: map[string]map[string]int{}, changeShape: map[string]string{}, everSeen: map[string]bool{}, RenameFree: true}
 	deletedOnce := map[string]bool{}
@@ -178,7 +178,7 @@ func GitFold(commits []GitCommit) *GitExpect {
 			rec := e.Live[path]
 			switch {
 			case rec == nil:
-				if ch.Mode != "create" && !isRen {
+				if ch.Mode != "create" && !isRen && !(ch.Mode == "delete" && deletedOnce[path]) {
 					bad("commit %s changes %q (mode %q), which does not exist", c.Rev, path, ch.Mode)
 				}
 				rec = &gitFileRec{authors: map[string]bool{}, revs: map[string]bool{}, first: c.Date}
@@ -188,7 +188,9 @@ func GitFold(commits []GitCommit) *GitExpect {
 				started[path] = true
 				e.Live[path] = rec
 			case ch.Mode == "create":
-				bad("commit %s creates existing %q", c.Rev, path)
+				// a second "create" of a path that still exists (the file was added on two branches that were merged;
+				// the linear log shows both): the file still exists, this commit and its author touched it
+				rec.tag("created-twice")
 			}
 			rec.authors[c.Author] = true
 			rec.revs[c.Rev] = true
